@@ -308,17 +308,28 @@ def check_priority_table(seed, n_cases=150, hash_seeds=()):
     rnd = random.Random(seed)
     viol, cases = [], 0
     for idx in range(n_cases):
-        w = rand_world(rnd, rnd.randint(2, 5))
+        from tawazi.config import cfg as _cfg
+
+        with_debug = idx % 2 == 1  # every other case: debug nodes, RUN_DEBUG_NODES on (debug nodes are pulled into selections)
+        w = rand_world(rnd, rnd.randint(2, 5), debug_p=0.5 if with_debug else 0.0)
         for nd in w.nodes.values():
             nd["prio"] = rnd.choice([-3, 0, 1, 2, 7])
         cases += 1
         d = w.build_dag()
         exp = {n: w.compound_priority(n) for n in w.order}
         v = []
-        graphs = {"dag.graph_ids": d.graph_ids, "executor()": d.executor().graph, "executor(target=last)": d.executor(target_nodes=[w.order[-1]]).graph}
-        rts = [n for n in w.order if not w.all_deps(n)]
-        graphs["executor(root=first root)"] = d.executor(root_nodes=[rts[0]]).graph
-        graphs["executor(exclude=last)"] = d.executor(exclude_nodes=[w.order[-1]]).graph
+        old_flag = _cfg.RUN_DEBUG_NODES
+        _cfg.RUN_DEBUG_NODES = with_debug
+        try:
+            graphs = {"dag.graph_ids": d.graph_ids, "executor()": d.executor().graph, "executor(target=last)": d.executor(target_nodes=[w.order[-1]]).graph}
+            rts = [n for n in w.order if not w.all_deps(n)]
+            graphs["executor(root=first root)"] = d.executor(root_nodes=[rts[0]]).graph
+            graphs["executor(exclude=last)"] = d.executor(exclude_nodes=[w.order[-1]]).graph
+            nondbg = [n for n in w.order if not w.nodes[n].get("debug")]
+            if with_debug and nondbg:
+                graphs["executor(target=first non-debug node), debug nodes pulled in"] = d.executor(target_nodes=[nondbg[0]]).graph
+        finally:
+            _cfg.RUN_DEBUG_NODES = old_flag
         for where, g in graphs.items():
             bad = {n: (g.compound_priority[n], exp[n]) for n in g.nodes if g.compound_priority[n] != exp[n]}
             if bad:
